@@ -1,5 +1,6 @@
 import CatiiProofs.StatsProofs
 import CatiiProofs.WQuantile
+import CatiiProofs.MissingGenBridge
 /-!
 # C18 — array-cube-only statistics equal the per-cell textbook statistic
 
@@ -41,6 +42,12 @@ theorem stddev_missing_rule (ignoreMissing : Bool) (valid missing : Nat) :
     stddevMissing ignoreMissing valid missing = true ↔ valid < 2 ∨ (ignoreMissing = false ∧ missing ≠ 0) := by
   unfold stddevMissing
   cases ignoreMissing <;> simp
+
+/-- the same rule as REGENERATED from `xfunc_stddev.reduce` on every run (`tools/translate_missing.py`) -/
+theorem generated_stddev_missing_rule (ignoreMissing : Bool) (valid missing : Nat) :
+    MissingGen.xfunc_stddev ignoreMissing (valid : Rat) (missing : Rat) = true ↔
+      valid < 2 ∨ (ignoreMissing = false ∧ missing ≠ 0) := by
+  rw [← Catii.Agg.gen_rule_stddev]; exact stddev_missing_rule ignoreMissing valid missing
 
 theorem weighted_quantile_scale_invariant (p k : Rat) (hk : 0 < k) (xs : List (Rat × Rat)) :
     wquantile p (xs.map fun x => (x.1, k * x.2)) = wquantile p xs :=
